@@ -6,6 +6,7 @@
 //   SV require=<0|1> ccert=<none|valid|untrusted|expired> pmin=.. pmax=.. cmin=..
 //        engine = TLS server (listener), peer = raw OpenSSL client  -> admitted=<0|1> ver=<..|0>
 //   HC verify=<0|1> anchor=<A|B> cert=<...>      HttpClient GET https://localhost:<port>/ (trust store through SSL_CERT_FILE) -> ok=<0|1>
+//   HS require=<0|1> ccert=<none|valid|untrusted|expired>   HttpServer with TLS / requireClientCert, raw OpenSSL client -> served=<0|1>
 //   NC kind=<client|listener>                    TLS asked for, no context configured -> refused=<0|1> clear=<0|1>
 //   CF kind=<noca|mismatch|expired|ok>           server configuration fail-fast -> start=<0|1>
 //   PP kind=<plain|garbage>                      a TLS client session whose peer talks plaintext / garbage -> conn=0
@@ -42,6 +43,7 @@
 #include "iora/network/transport.hpp"
 #include "iora/network/transport_impl.hpp"
 #include "iora/network/http_client.hpp"
+#include "iora/network/http_server.hpp"
 #undef private
 #undef protected
 
@@ -462,6 +464,62 @@ static std::string caseHttpClient(std::map<std::string, std::string> a)
   return std::string("ok=") + (ok ? "1" : "0");
 }
 
+
+// HttpServer with TLS (requireClientCert on/off) and a raw OpenSSL client that does or does not present a certificate
+static std::string caseHttpServer(std::map<std::string, std::string> a)
+{
+  std::uint16_t port;
+  { int f = tcpListener(port); ::close(f); }
+  HttpServer srv("127.0.0.1", port);
+  HttpServer::TlsConfig tc;
+  tc.certFile = pki.c("valid");
+  tc.keyFile = pki.k("valid");
+  tc.caFile = pki.c("caA");
+  tc.requireClientCert = a["require"] == "1";
+  srv.enableTls(tc);
+  srv.onGet("/", [](const HttpServer::Request &, HttpServer::Response &res) { res.set_content("hello", "text/plain"); });
+  try { srv.start(); } catch (const std::exception &) { return "STARTFAIL"; }
+  bool ok = false;
+  int fd = -1;
+  for (int i = 0; i < 100 && fd < 0; ++i)
+  {
+    int f = ::socket(AF_INET, SOCK_STREAM, 0);
+    sockaddr_in t = loop(port);
+    if (::connect(f, reinterpret_cast<sockaddr *>(&t), sizeof(t)) == 0) fd = f;
+    else { ::close(f); std::this_thread::sleep_for(std::chrono::milliseconds(10)); }
+  }
+  if (fd >= 0)
+  {
+    setTimeouts(fd, 3000);
+    SSL_CTX *ctx = SSL_CTX_new(TLS_client_method());
+    if (a["ccert"] != "none")
+    {
+      std::string n = "cli_" + a["ccert"];
+      SSL_CTX_use_certificate_file(ctx, pki.c(n).c_str(), SSL_FILETYPE_PEM);
+      SSL_CTX_use_PrivateKey_file(ctx, pki.k(n).c_str(), SSL_FILETYPE_PEM);
+    }
+    SSL *ssl = SSL_new(ctx);
+    SSL_set_fd(ssl, fd);
+    if (SSL_connect(ssl) == 1)
+    {
+      const char *req = "GET / HTTP/1.1\r\nHost: localhost\r\nConnection: close\r\n\r\n";
+      if (SSL_write(ssl, req, static_cast<int>(std::strlen(req))) > 0)
+      {
+        std::string in;
+        char buf[1024];
+        int n;
+        while ((n = SSL_read(ssl, buf, sizeof(buf))) > 0) in.append(buf, static_cast<std::size_t>(n));
+        ok = in.find("200 OK") != std::string::npos && in.find("hello") != std::string::npos;
+      }
+    }
+    SSL_free(ssl);
+    SSL_CTX_free(ctx);
+    ::close(fd);
+  }
+  srv.stop();
+  return std::string("served=") + (ok ? "1" : "0");
+}
+
 static std::string caseNoContext(std::map<std::string, std::string> a)
 {
   if (a["kind"] == "listener")
@@ -565,6 +623,7 @@ int main(int argc, char **argv)
       if (p[0] == "CL") r = caseClient(a);
       else if (p[0] == "SV") r = caseServer(a);
       else if (p[0] == "HC") r = caseHttpClient(a);
+      else if (p[0] == "HS") r = caseHttpServer(a);
       else if (p[0] == "NC") r = caseNoContext(a);
       else if (p[0] == "CF") r = caseConfig(a);
       else if (p[0] == "PP") r = casePlainPeer(a);
